@@ -842,6 +842,19 @@ def _rule_loop_subscripts(prog, chk, R):
                         if op == '>' and SX.show(p13(r)) == v['name']:
                             bounds.append(p13(l))
                 if not ok:
+                    # a bound held in a local that is the smaller of two lengths (`const size_t n = std::min(a.size(), b.size());`) bounds the
+                    # counter by each of them
+                    for b in list(bounds):
+                        if SX.is_node(b) and b.get('k') == 'ref' and b.get('kind') == 'var':
+                            dv = [d_ for d_ in SX.walk(f.body, into_lambdas=False) if d_.get('k') == 'var' and d_.get('id') == b.get('id')]
+                            wr = [1 for y_ in SX.walk(f.body) for w_ in [SX.write_target(y_)] if w_ and SX.is_node(SX.strip(w_[0])) and SX.strip(w_[0]).get('id') == b.get('id')]
+                            i_ = p13(SX.strip(dv[0].get('init'))) if len(dv) == 1 and not wr and SX.is_node(dv[0].get('init')) else None
+                            if SX.is_node(i_) and i_.get('k') == 'call' and (i_.get('callee') or '').split('<')[0] == 'std::min' and len(SX.real_args(i_)) == 2:
+                                bounds += [p13(a_) for a_ in SX.real_args(i_)]
+                    for b in bounds:
+                        if SX.is_node(b) and b.get('k') == 'mcall' and SX.short(b.get('callee', '')) == 'size' and SX.show(p13(b.get('obj'))) == V:
+                            ok, why = True, 'bounded by its own size'
+                if not ok:
                     for b in bounds:
                         bt = SX.show(b)
                         W = SX.show(p13(b.get('obj'))) if SX.is_node(b) and b.get('k') == 'mcall' and SX.short(b.get('callee', '')) == 'size' else None
@@ -1098,9 +1111,27 @@ def _rule_other_subscripts(prog, chk, R, skip_ids):
                     for ce, pol, ed in g.guards(node):
                         for c_, p_ in conj(ce, pol):
                             c0 = p13(c_)
-                            if not (p_ and SX.is_node(c0) and c0.get('k') == 'ref' and c0.get('t') == 'bool'):
+                            if not (p_ and SX.is_node(c0) and c0.get('k') == 'ref' and (c0.get('t') or '').replace('const ', '') == 'bool'):
                                 continue
                             fd = [d for d in SX.walk(f.body, into_lambdas=False) if d['k'] == 'var' and d['id'] == c0['id']]
+                            ini = p13(fd[0].get('init')) if fd and SX.is_node(fd[0].get('init')) else None
+                            if SX.is_node(ini) and ini.get('k') == 'call' and (ini.get('callee') or '').split('<')[0] == 'std::all_of' and len(SX.real_args(ini)) == 3 \
+                                    and not [1 for y in SX.walk(f.body) for w in [SX.write_target(y)] if w and SX.strip(w[0]).get('id') == c0['id']]:
+                                # `const bool all = std::all_of(R.begin(), R.end(), pred);` — pred holds for every element of R
+                                a_ = SX.real_args(ini)
+                                rng_ok = all(SX.is_node(p13(z)) and p13(z).get('k') == 'mcall' and SX.short(p13(z).get('callee', '')) == nm and SX.show(p13(p13(z).get('obj'))) == RT
+                                             for z, nm in ((a_[0], 'begin'), (a_[1], 'end')))
+                                pr = p13(a_[2])
+                                lam = pr if SX.is_node(pr) and pr.get('k') == 'lambda' else None
+                                if lam is None and SX.is_node(pr) and pr.get('k') == 'ref':
+                                    pd = [d for d in SX.walk(f.body, into_lambdas=False) if d['k'] == 'var' and d['id'] == pr.get('id') and SX.is_node(d.get('init')) and SX.strip(d['init']).get('k') == 'lambda']
+                                    pw = [1 for y in SX.walk(f.body) for w in [SX.write_target(y)] if w and SX.strip(w[0]).get('id') == pr.get('id')]
+                                    lam = SX.strip(pd[0]['init']) if len(pd) == 1 and not pw else None
+                                st_ = lam['body'].get('body') if lam is not None and SX.is_node(lam.get('body')) and lam['body'].get('k') == 'block' else None
+                                if rng_ok and st_ and len(st_) == 1 and st_[0].get('k') == 'return' and len(lam.get('params', [])) == 1 and \
+                                        any(_bound_test(c2, p2, lam['params'][0]['name'], V) == 0 for c2, p2 in conj(st_[0]['e'], True)):
+                                    ok, why = True, 'every element of %s satisfies the predicate of std::all_of (%s), which tests it against %s.size()' % (RT, c0['name'], V)
+                                continue
                             if not fd or not (SX.is_node(p13(fd[0].get('init'))) and p13(fd[0]['init']).get('v') is True):
                                 continue
                             clears = []
